@@ -91,7 +91,10 @@ def escape_attr(s):
 
 
 class Doc:
-    def __init__(self, text):
+    def __init__(self, text, lenient=False):
+        """lenient: elements still open at the end of the text are closed there (roxmltree 0.14 accepts such truncated
+        documents, so the diagnosis functions of C12 must be able to read them too)."""
+        self.lenient = lenient
         self.text = text
         self.elements = []   # preorder
         self.texts = []      # document order
@@ -173,6 +176,10 @@ class Doc:
                 if not e.selfclosing:
                     stack.append(e)
                 i = m.end()
+        if stack and self.lenient:
+            for e in stack:
+                e.etag_start = e.end = n
+            stack = []
         if stack or self.root is None:
             raise XmlError("unclosed element")
 
